@@ -235,7 +235,38 @@ def devices(ctx):
     return dev, [("weak", weak), ("strong", strong)]
 
 
+def seeded_bounds(ctx):
+    """a run continued from a seed solution obeys the same rule: warm-up steps equal ITS dt_init, every step is at most
+    ITS dt_max, whatever time step the seed had reached"""
+    import tdgl
+    import runs
+
+    first = None
+    dev, drives = devices(ctx)
+    kw = drives[0][1]
+    seed = tdgl.solve(dev, runs.options(solve_time=1.0, dt_init=1e-3, dt_max=0.1, adaptive=True, adaptive_window=2, save_every=50), **kw)
+    seed_dt = float(np.asarray(seed.dynamics.dt)[-1])
+    for adaptive, dt_init, dt_max, window in ((True, 1e-4, 1e-3, 3), (True, 2e-4, 5e-2, 2), (False, 5e-4, 1e-2, 5)):
+        sol = tdgl.solve(dev, runs.options(solve_time=0.02 if adaptive else 0.005, dt_init=dt_init, dt_max=dt_max, adaptive=adaptive, adaptive_window=window, save_every=5), seed_solution=seed, **kw)
+        dts = np.asarray(sol.dynamics.dt, dtype=float)
+        ctx.case(("seeded", adaptive, dt_init, dt_max, window), nontrivial=seed_dt > dt_max)
+        ctx.count("seeded_runs")
+        bad = None
+        if dts.max() > dt_max:
+            bad = f"a step of the seeded run is {dts.max():.3e} > dt_max = {dt_max}"
+        elif not np.all(dts[: window + 1] == dt_init):
+            bad = f"the warm-up steps of the seeded run are {dts[: window + 1].tolist()}, not dt_init = {dt_init}"
+        elif not adaptive and not np.all(dts == dt_init):
+            bad = "a non-adaptive seeded run changed its step"
+        if bad:
+            rp = dict(adaptive=adaptive, dt_init=dt_init, dt_max=dt_max, window=window, seed_last_dt=seed_dt, first_steps=dts[:6].tolist())
+            ctx.fail("seeded-run-bounds", bad + f" (the seed's last step was {seed_dt:.3e})", rp)
+            first = first or dict(key="seeded-run-bounds", what=bad, **rp)
+    return first
+
+
 def run(ctx):
+    seeded_bounds(ctx)
     dev, drives = devices(ctx)
     nsteps = 14 if ctx.quick else 40
     sts = settings(ctx.rng, ctx.quick)
